@@ -4,6 +4,7 @@
    1401: [wcode; copies] :: matrix -> effect copies w m          (the caller's object after the export)
    1402: [wcode] :: matrix         -> view w m                   (what the bytes are produced from)
    1403: [copies; wcode ...] :: matrix -> after_exports          (a history of exports)
+   1404: [] :: matrix              -> cluster_view m             (what CanCluster's own frames / signals lists hold)
    1411: [order as (kind,val) pairs] [signals as (name,kind,val) triples] -> sym_emit (sorted, after the fix)
    1412: same -> sym_emit_in_order (iteration order as given, before the fix)
    1413: [ints ...] -> isort
@@ -85,6 +86,7 @@ Definition run_c14 (cmd : Z) (a : io) : io :=
   | 1401, h :: m => run_1401 h m
   | 1402, h :: m => run_1402 h m
   | 1403, h :: m => run_1403 h m
+  | 1404, _ :: m => match matrix_of m with Some mm => matrix_out (cluster_view mm) | None => [[-998]] end
   | 1411, [o; s] => run_1411 o s
   | 1412, [o; s] => run_1412 o s
   | 1413, [l] => [isort l]
